@@ -1,4 +1,1 @@
-import PieModel.Build.Pie
-namespace PieModel
-theorem C17_placeholder : True := trivial
-end PieModel
+import PieModel.Props.C17Lib
